@@ -39,6 +39,12 @@ CORE = [s for s in SIGMA if s not in (('label', '_f0'), ('brr', ('lab', 'G1')), 
                                       ('org', 2, 'zz'), ('memzone', 'GLOBAL'), ('unmute',))]
 
 
+# the deepest level of the thorough tier runs over 14 of the symbols (one of each kind of line)
+CORE_DEEP = [s for s in CORE if s in (('label', 'G0'), ('label', 'G1'), ('const', 'Z0', 0), ('nop',), ('m2', 5, ('lab', 'K0')), ('jmp', ('lab', 'G0')),
+                                      ('brr', ('lab', 'G0')), ('data', 2, [('lab', 'G0'), ('lab+', '_f0', 2)]), ('fill', 3, 0x55), ('zerountil', 9),
+                                      ('org', 0x10, None), ('align', 4), ('memzone', 'zz'), ('mute',))]
+
+
 def isa_of(p):
     return probe_isa(p.address_size, p.endian, origin=p.origin or None, page_size=p.page_size if p.page_size != 1 else None,
                      zones=p.zones, embedded_strings=True, data=p.data or None)
@@ -53,7 +59,7 @@ def meta(tier):
                 'label value; the whole image from address 0 must equal the reference layout; non-trivial = history with a '
                 'label reference and an address-moving line (origin/align/zone/fill); plus every history up to depth 4 (thorough 5) over a 12-symbol multi-file alphabet (labels, references, origins, zone switches, alignment, and includes of a plain file, of a file that switches zone, of a file with its own origin), with every label of every file read out at the end; plus a 64-bit address space with origins at and above 2^53 x 5 alignments x 0..7 bytes before the alignment; programs that fill an 8- / 16-bit address space to its last byte and define a label there (value 2^n, referenced before and after); quoted strings under .2byte / .4byte / .8byte between labels, both byte orders; states = distinct reference states',
         'bounds': {'alphabet': [R.render_stmt(s) if s[0] != 'excluded' else '#if 0 / .byte 1,2,3 / G9: / #endif' for s in SIGMA],
-                   'depth_full': 3 if q else 4, 'depth_core': 4 if q else 5, 'configs': [c[0] for c in CONFIGS]},
+                   'depth_full': 3 if q else 4, 'depth_core': '4 (23 symbols)' if q else '5 (14 symbols)', 'configs': [c[0] for c in CONFIGS]},
         'assumptions': [
             'a label immediately followed by an origin / alignment / zone directive is not judged when referenced (the statement '
             'does not say which of the two addresses "the next line" has)',
@@ -110,11 +116,12 @@ def shard(acc, tier, idx, n):
             return R.assemble(params, {'main.asm': build(h, blocks)}).status != 'REJECT'
 
         seen = set()
-        for alphabet, depth in ((SIGMA, d_full), (CORE, d_core)):
-            if alphabet is CORE and ci != 0:
+        core = CORE if q else CORE_DEEP
+        for alphabet, depth in ((SIGMA, d_full), (core, d_core)):
+            if alphabet is core and ci != 0:
                 continue            # the deepest level only under the first configuration
             for h in histories(alphabet, depth, idx, n, prefix_ok=ok):
-                if alphabet is CORE and len(h) <= d_full:
+                if alphabet is core and len(h) <= d_full:
                     continue        # already executed by the full-alphabet pass
                 files = {'main.asm': build(h, blocks)}
                 ref, out, msg = run_program(acc, params, isa, files, nontrivial=((ci, h) if moving(h) else None),
